@@ -419,6 +419,7 @@ fn check_map(run: &mut Run, id: &str, src: &Beatmap, repro: &str, mods: &[(Strin
         Ok(()) => {}
         Err(e) => run.fail("oracle:catch-convert", "", id, e, repro.to_owned()),
     }
+    crate::c19_mania::path_new_lines(run, id, src, repro);
     let count = src.hit_objects.iter().filter(|h| h.is_slider() || h.is_spinner()).count();
     let len = src.hit_objects.len();
     let picks: Vec<usize> = if all_mods { (0..mods.len()).collect() } else { vec![0, 1 + rng.below(mods.len() as u64 - 1) as usize, 1 + rng.below(mods.len() as u64 - 1) as usize] };
